@@ -407,12 +407,12 @@ PLAN["C13"] = {
 PLAN["C14"] = {
     "level": "model_checking",
     "explanation": "BuildId / SoName::read_from_module on byte images: a well-formed ELF64 built field by field is identified (GNU note, XOR-fold of the first "
-                   "executable section, DT_SONAME); every single-field and every pairwise corruption over boundary values (583 848 images) returns without panicking",
+                   "executable section, DT_SONAME); every single-field and every pairwise corruption over boundary values (608 688 parses, incl. every field set to every other field's value +-1) returns without panicking",
     "verus": [],
     "kani": [],
     "native": [{"stem": "module_reader", "filter": "", "tiers": Q, "tests": {
         "c14_well_formed_image_is_identified": H("B'", "BuildId/SoName::read_from_module", "3 hand-built ELF64 images"),
-        "bprime_single_field_corruptions_never_panic": H("B'", "BuildId/SoName::read_from_module", "108 fields x 14 values, and all field pairs x 25 value pairs, with and without a note")}}],
+        "bprime_single_field_corruptions_never_panic": H("B'", "BuildId/SoName::read_from_module", "every field x (14 extremes + every other field's value and its neighbours), and all field pairs x 25 value pairs, with and without a note: 608 688 parses")}}],
     "trusted": ["agreement with an independent parser on installed files and memory-vs-file agreement need a second implementation and a live target: not decided",
                 "goblin's parsing beyond the paths these images exercise"],
     "samples": ["field at offset 728 (DT_STRTAB) := u64::MAX must give Err, not 'attempt to add with overflow'"],
@@ -568,7 +568,7 @@ LEVEL_TEXT = {
     "C11": "bounded check of suspend_threads, complete control-flow proof (relative to stubs) for the 11 best-effort steps of generate_dump (thorough); init and JSON well-formedness are not covered",
     "C12": "bounded: exhaustive native enumeration of 13 872 boundary inputs (quick) and Kani over all 8/12-byte stacks with a symbolic mapping (thorough); not a proof for all stack lengths",
     "C13": "bounded: exhaustive over all maps of up to 3 lines of a 64-element per-line domain; not a proof for all map lengths",
-    "C14": "bounded: three hand-built images and 583 848 corrupted variants; agreement with an independent parser on installed files is not decided",
+    "C14": "bounded: four hand-built images and 608 688 parses of corrupted variants; agreement with an independent parser on installed files is not decided",
     "C15": "bounded: every named/unnamed pattern of 2 threads with symbolic ids and concrete names (Kani); every list of <= 3 threads over 8 name shapes incl. non-BMP names (native)",
     "C16": "unbounded proof for every Buffer/MemoryWriter/MemoryArrayWriter function Verus can read (all inputs, all buffer states); complete Kani proofs of the per-type size facts; bounded Kani checks (stated bounds) of alloc_from_array/alloc_from_iter/write_string_to_location",
     "C17": "bounded: destinations of 3, 8, 11, 17 bytes, every source alignment and every readable interval for the ptrace strategy (Kani); all three strategies on a live child around a mapping end, 6144 reads (native); strategy selection complete (Kani)",
